@@ -77,9 +77,9 @@ CLAIMED = {
     ),
     "C16": dict(
         text="Lean theorems: for EVERY electronegativity function, normaliser, damping, non-zero scaling and positive cycle count, and every molecule with symmetric neighbour lists, PEOE-equilibrated charges sum to the sum of formal charges (over Q); "
-        "the neighbour lists the MOL2 reader builds from any bond list are symmetric; radii tables positive (kernel-checked on regenerated tables) and looked up type-then-element, primary-then-secondary; the ligand transfer hits exactly name-matching HETATM-prefix atoms of non-water residues; "
+        "relabelling the atoms and re-ordering the bond records only permutes the charges produced by the cycles (equivariance, over Q); the neighbour lists the MOL2 reader builds from any bond list are symmetric; radii tables positive (kernel-checked on regenerated tables) and looked up type-then-element, primary-then-secondary; the ligand transfer hits exactly name-matching HETATM-prefix atoms of non-water residues; "
         "partial 'ligand only' theorem + refutation witness of full strength (name clash with a second hetero group: known finding). Tie: real Mol2Molecule.read/assign_parameters vs the model in Float with regenerated tables (formal charges exact, charges 1e-9, radii exact), real main_driver --ligand vs ligandTransfer.",
-        note="float summation order / pow compared at 1e-9; permutation equivariance checked by the oracle on generated molecules, not proved",
+        note="float summation order / pow compared at 1e-9; equivariance is proved for the charge cycles given corresponding formal charges - the formal charges themselves (phosphate correction picks the first terminal oxygen) are order-dependent between equivalent oxygens by design and are covered by the oracle on permuted molecules",
         ref="DESIGN.md §4 C16",
     ),
     "C13": dict(
